@@ -462,3 +462,26 @@ Theorem c03_code_create_timing_advert : forall m rho now mrp mtp tpu nf af tc e 
 Proof. exact code_create_timing_advert. Qed.
 Print Assumptions c03_code_create_timing_advert.
 
+
+(* libwifi_create_tag AS TRANSLATED (also stated under C05): the object is zeroed, number and length stored through the one-octet
+   conversions, ONE malloc(tag_length); a NULL answer is reported as -ENOMEM (as a size_t: quick_add_tag narrows it to a negative int
+   - C15-n), otherwise the body block is cleared and filled and 2 + tag_length returned, for EVERY length - 0 included (C03-n returns early for an empty body, before the header is filled: an empty element with a non-zero number is encoded as 00 00). *)
+From Coq Require Import String List.
+From LW Require Import Base.CExpr Gen.Sites Spec.CodeSpec Proofs.SitesTags.
+Import ListNotations.
+Local Open Scope string_scope.
+Local Open Scope list_scope.
+Local Open Scope Z_scope.
+Theorem c03_code_create_tag : forall m rho num tl q,
+  - 2 ^ 31 <= num < 2 ^ 31 -> 0 <= tl < 2 ^ 63 -> rho "ret:malloc" = q -> 0 <= q < 2 ^ 63 ->
+  let rho0 := upd (upd rho "tag_number" num) "tag_length" tl in
+  let pre := [("memset", [wrap u64 (rho "tagged_parameter"); 0; 10]); ("malloc", [tl])] in
+  if (q =? 0)%Z then observe (exec 40 m rho0 [] body_libwifi_create_tag) = Some (Some (2 ^ 64 - 12), pre)
+  else exists rho',
+    exec 40 m rho0 [] body_libwifi_create_tag =
+      Returned (Some (2 + tl)) rho'
+        (pre ++ [("memset", [q; 0; tl]); ("memcpy", [q; wrap u64 (rho "tag_data"); tl])]) /\
+    rho' "tagged_parameter->header.tag_len" = tl mod 256 /\ rho' "tagged_parameter->header.tag_num" = num mod 256 /\
+    rho' "tagged_parameter->body" = q.
+Proof. exact code_create_tag. Qed.
+Print Assumptions c03_code_create_tag.
